@@ -519,6 +519,9 @@ class Probe:
                 break
         if not issubclass(cls, ElementList):
             self.must_reject("non-aggregate-list-member-accepted", "kwargs", lambda: cls(*(list(args) + [5]), **kwargs), "int")
+            # "nothing" is not a member either (an optional CHILD may be None; a member that is None is a member of no permitted type)
+            self.must_reject("non-aggregate-list-member-accepted", "kwargs", lambda: cls(*(list(args) + [None]), **kwargs), "None")
+            self.must_reject("non-aggregate-list-member-accepted", "kwargs", lambda: cls(*([None] + list(args)), **kwargs), "None-first")
             if not lists:
                 self.must_reject("list-member-on-class-without-lists", "kwargs", lambda: cls(*(list(args) + ["text"]), **kwargs), "str")
         else:
